@@ -501,7 +501,7 @@ func init() {
 		Assumptions: []string{"no fault or schedule dimension exists for this property: the simulator contributes seeded history search, replay, minimisation and the transport round trip", "expected handler/media-header per media type are taken from ISO/IEC 14496-12/-30 (subtitle and stpp -> subt/sthd; text and wvtt -> text/nmhd)",
 			"parameter sets are fixed public test vectors with known coded dimensions (1280x720 AVC, 960x540 HEVC)", "media type \"subtitles\" (plural) is rejected by the library by design and not generated"},
 		Real: realLib, Stub: []string{"io.Reader delivery (SimDisk handle)", "virtual device time"}, RealNoFault: realNoFault,
-		Runs:  map[string]int{"quick": 40000, "thorough": 3000000},
+		Runs:  map[string]int{"quick": 250000, "thorough": 20000000},
 		Setup: func() error { return nil },
 		Run:   c19Run,
 	})
